@@ -249,7 +249,7 @@ theorem process_contexts_distinct (lg : Nat → Nat) (mask : Nat → Nat → Nat
 theorem process_value_sound (lg : Nat → Nat) (mask : Nat → Nat → Nat) (c0 : Nat) (ops : List Op)
     (g i : Nat) (v : Val) (h : Out.value g i v ∈ (run lg mask (Proc.init c0) ops).2) :
     ∃ gen, (run lg mask (Proc.init c0) ops).1.gens[g]? = some gen ∧
-      genValue lg mask { kind := gen.kind, cfg := gen.cfg, counter := i } = .ok v :=
+      genValue lg mask { gen with counter := i } = .ok v :=
   Proofs.C13.run_value_sound lg mask ops _ g i v h
 
 /-- **Composition, numeric ids.** In the outputs of *any* operation sequence, two numeric ids —
@@ -267,6 +267,69 @@ theorem process_alpha_no_collision (lg : Nat → Nat) (mask : Nat → Nat → Na
     (run lg mask (Proc.init c0) ops).2.Pairwise
       (Proofs.C13.AlphaOK lg mask (run lg mask (Proc.init c0) ops).1) :=
   Proofs.C13.run_alphaOK lg mask ops _ (Proofs.C13.goodCtx_init c0)
+
+/-! #### continuation: generators restored from a continuation file
+
+`Op.restore` is `PluginResult._from_continuation` = `cls(**state)`: the op sequences of the
+theorems above include it, so they speak about processes that contain restored generators too.
+What makes them safe is stated separately below: a restored generator takes its context number
+from the *resuming* process's counter (it does not bring one along). -/
+
+/-- `__reduce__` keeps the template, `randomize` and the original `start` — nothing else. -/
+theorem reduce_spec (g : Gen) (sv : SavedGen) (h : reduceGen g = some sv) :
+    g.kind = .numeric sv.randomize ∧ sv.parts = g.cfg.parts ∧ sv.start = g.start := by
+  unfold reduceGen at h
+  split at h
+  · rename_i r hk
+    simp only [Option.some.injEq] at h
+    subst h
+    exact ⟨hk, rfl, rfl⟩
+  · cases h
+
+/-- **Restore draws a fresh context number**: the restored generator is appended with the
+    process's next context number (which is consumed), the persisted template and flag, the
+    resuming process's pid, and its counter back at the persisted `start`. -/
+theorem restore_spec (lg : Nat → Nat) (mask : Nat → Nat → Nat) (p : Proc) (sv : SavedGen) (pid : List Nat) :
+    step lg mask p (.restore sv pid) =
+      ({ nextCtx := p.nextCtx + 1,
+         gens := p.gens ++ [{ kind := .numeric sv.randomize, cfg := { parts := sv.parts, pidParts := pid, ctx := p.nextCtx },
+                              counter := sv.start, start := sv.start }] },
+       .created p.gens.length) := rfl
+
+/-- The composition theorems hold from *every* state whose context numbers are pairwise distinct
+    and below the counter (`Proofs.C13.GoodCtx`), e.g. a fresh process after any number of restores. -/
+theorem process_numeric_no_collision_from (lg : Nat → Nat) (mask : Nat → Nat → Nat) (p : Proc)
+    (hp : Proofs.C13.GoodCtx p) (ops : List Op) :
+    (run lg mask p ops).2.Pairwise (Proofs.C13.NumOK lg mask (run lg mask p ops).1) :=
+  Proofs.C13.run_numOK lg mask ops p hp
+
+/-- non-vacuity with a restored generator: resume (restore of a default small-id generator), then
+    the builtin default generator is created; interleaved draws are distinct -/
+example :
+    ((run Nat.log2 (fun k nb => (k + 1) * 37 % 2 ^ nb) (Proc.init 1)
+      [.restore ⟨[.context, .index], true, 1⟩ [5], .newNumeric [.context, .index] [5] true,
+       .draw 0, .draw 1, .draw 0, .draw 1]).2.filterMap
+        (fun o => match o with | .value _ _ (.num v) => some v | _ => none))
+      = [891010, 871010, 1242010, 1142010] := by decide
+
+/-- FULL STATEMENT (false): "the composition holds from every process state".
+    **Refutation / why the hypothesis matters**: a state in which a generator already holds a
+    context number that the counter has not passed — which is what a generator restored *with its
+    saved context number* into a fresh process amounts to — collides with the next generator
+    created from the same template: here the restored one (context 1, counter at 3) and the new
+    one (context 1 again) both produce the id of the tuple (1, 3). -/
+theorem restored_context_must_be_fresh_refuted :
+    ¬ Proofs.C13.GoodCtx ⟨1, [⟨.numeric true, ⟨[.context, .index], [5], 1⟩, 3, 1⟩]⟩ ∧
+    ((run Nat.log2 (fun k nb => (k + 1) * 37 % 2 ^ nb)
+        ⟨1, [⟨.numeric true, ⟨[.context, .index], [5], 1⟩, 3, 1⟩]⟩
+        [.newNumeric [.context, .index] [5] true, .draw 0, .draw 1, .draw 1, .draw 1]).2.filterMap
+        (fun o => match o with | .value _ _ (.num v) => some v | _ => none)).Nodup = False := by
+  constructor
+  · intro h
+    have := h.2 _ (List.mem_singleton.mpr rfl)
+    simp at this
+  · simp only [eq_iff_iff, iff_false]
+    decide
 
 /-- non-vacuity: two default small-id numeric generators, interleaved draws, four distinct ids -/
 example :
